@@ -531,7 +531,41 @@ impl Callbacks for Cb {
         let lay = cx.layouts.borrow();
         let ls: Vec<String> = lay.iter().map(|(k, (s, a))| format!("{}:[{},{}]", esc(k), s, a)).collect();
         out.push_str(&ls.join(","));
-        let _ = write!(out, "}},\n\"nbodies\":{}}}\n", nbodies);
+        out.push_str("},\n\"ext_enums\":[");
+        // enums of other crates that the crate's bodies hold in a local (their variant names give meaning to a discriminant test)
+        {
+            let mut seen: std::collections::BTreeMap<String, String> = Default::default();
+            for ldid in tcx.mir_keys(()) {
+                let did = ldid.to_def_id();
+                if !matches!(tcx.def_kind(did), DefKind::Fn | DefKind::AssocFn | DefKind::Closure) {
+                    continue;
+                }
+                let body = tcx.optimized_mir(did);
+                for decl in body.local_decls.iter() {
+                    for arg in decl.ty.walk() {
+                        if let Some(t) = arg.as_type() {
+                            if let ty::Adt(def, _) = t.kind() {
+                                if def.is_enum() && !def.did().is_local() {
+                                    let path = tcx.def_path_str(def.did());
+                                    if seen.contains_key(&path) {
+                                        continue;
+                                    }
+                                    let vs: Vec<String> = def
+                                        .variants()
+                                        .iter_enumerated()
+                                        .map(|(vi, v)| format!("{{\"name\":{},\"discr\":\"{}\"}}", esc(&v.name.to_string()), def.discriminant_for_variant(tcx, vi).val))
+                                        .collect();
+                                    seen.insert(path.clone(), format!("{{\"path\":{},\"variants\":[{}]}}", esc(&path), vs.join(",")));
+                                }
+                            }
+                        }
+                    }
+                }
+            }
+            let v: Vec<String> = seen.into_values().collect();
+            out.push_str(&v.join(","));
+        }
+        let _ = write!(out, "],\n\"nbodies\":{}}}\n", nbodies);
         let path = std::env::var("FACTS_OUT").unwrap_or_else(|_| "/tmp/facts.json".into());
         std::fs::write(&path, out).unwrap();
         eprintln!("FACTS written {} ({} bodies)", path, nbodies);
